@@ -9,6 +9,10 @@ OBLIGATIONS = ['C04.ffdp_le', 'C04.onePass_perm', 'C04.onePass_nochange', 'C04.s
                'C04.reverse_chain_needs_n_passes', 'C04.propagate_fixpoint',
                'C04.settled_unique', 'C04.propagate_order_indep', 'C04.propIdem', 'C04.clkCycle_settled',
                'C04.topoOK_of_sorted', 'C04.pairwise_idx']
+# completeness side (Props/C04Complete.lean): termination of the swap sorter on acyclic netlists with the explicit bound
+# n(n-1)/2 + 1 passes, hence acceptance under the code's limit max(1000, n+1) for every netlist of at most 45 leaves
+OBLIGATIONS_COMPLETE = ['C04.accepted_within', 'C04.accepted_of_limit', 'C04.accepted_upto45', 'C04.schedulable_sorted',
+                        'C04.accepted_iff_acyclic', 'C04.acyclic_iff_noCycle', 'C04.accepted_iff_noCycle_upto45']
 COMB_KINDS = ['And2', 'Or2', 'Not', 'Buf', 'Mux2', 'Sub', 'Mul', 'AddCarryIn', 'Constant', 'ShiftLeftConstant',
               'ShiftRightConstant', 'Bit', 'Range', 'ZeroExtend', 'SignExtend', 'Repeat', 'ConcatenateLSBF',
               'ConcatenateMSBF', 'BitsLSBF', 'BitsMSBF', 'SignedMul']
@@ -236,7 +240,7 @@ def main(res, tier, rng, replay):
     ok, metas, errors, changed = regenerate()
     for e in errors:
         res.broken.append(('translator', 'py2lean', e))
-    res.proof_stage('Py4hwV.Props.C04', OBLIGATIONS)
+    res.proof_stage('Py4hwV.Props.C04Complete', OBLIGATIONS + OBLIGATIONS_COMPLETE, extra_modules=['Py4hwV.Props.C04'])
     # pass limit as written in the source today
     src = open(os.path.join(REPO, 'py4hw', 'simulation.py')).read()
     # the pass limit as written in the source today: either a literal or `maxloops = max(K, len(self.propagatables) + 1)`
